@@ -119,6 +119,10 @@ func (p *c03) gen(seed uint64, idx int) c03Case {
 		"{{ 'username and user name'|replace({'user': 'U', 'username': 'N', 'name': 'M', 'u': 'x'}) }}", "{{ 'aXbXc'|replace({'X': '-', 'aX': '+', 'Xc': '!'}) }}",
 		"{{ ps }}", "{{ mp }}", "{{ st }}|{{ pst }}", "{{ lp }}", "{{ [p, pp, ps] }}", "{{ {'k': p, 'l': ps} }}", "{{ ps ~ mp }}", "{{ ps|first }}{{ ps|last }}", "{{ dump(ps)|length > 0 ? 'd' : 'n' }}",
 		"{{ p }}", "{{ ps|join(',') }}", "{% for x in ps %}{{ x }}{% endfor %}", "{{ st.P }}|{{ st.S }}", "{{ st.Name }}", "{{ pp }}", "{{ pst.Name }}", "{{ lp|first }}", "{{ mp|first }}{% for k, v in mp %}{{ v }}{% endfor %}",
+		// typed collections whose first entry holds no pointer while later ones do; maps with a nil entry
+		"{{ psn }}", "{{ stl }}", "{{ mpn }}", "{{ [psn, stl] }}|{{ arrp }}", "{{ psn ~ mpn }}", "{{ {'a': stl, 'b': mpn} }}", "{{ lpn }}{{ psn|last }}", "{{ stl|last }}|{{ stl|first }}", "{{ mpn|last }}{{ mpn|first }}",
+		// keys of different Go types that are numerically equal or print alike
+		"{% for k, v in tie %}{{ k }}={{ v }},{% endfor %}", "{{ tie|first }}|{{ tie|last }}|{{ tie|keys|join(',') }}", "{{ tiep }}", "{{ tie|json_encode|length }}{% for v in tie %}{{ v }}{% endfor %}", "{{ tie|merge({'x': 1})|first }}",
 		"{% include 'inc3' with {'a1': a2, 'a2': a3, 'a3': a1, 'n1': n2 + 1, 'n2': 10} %}", "{% include 'inc3' with {'a3': a2 ~ a1, 'a2': a1, 'a1': 'x', 'n2': n1, 'n1': n2} only %}",
 		"{% include 'inc' with m %}", "{% include 'inc' with " + hash(r.Range(3, 6)) + " only %}",
 	}
@@ -215,7 +219,35 @@ func (c c03Case) buildCtx(variant uint64) map[string]interface{} {
 		*x = c.vals[i]
 		mp[c.keys[i]] = x
 	}
+	psn := []*int{nil}
+	for i := 0; i < 2; i++ {
+		x := new(int)
+		*x = i + 70
+		psn = append(psn, x)
+	}
+	stl := []c03Struct{{Name: "n0"}, {Name: "n1", P: pi}, {Name: "n2", S: s}}
+	mpn := map[string]*int{}
+	for _, i := range r.Perm(len(c.keys)) {
+		if i%2 == 0 {
+			mpn[c.keys[i]] = nil
+			continue
+		}
+		x := new(int)
+		*x = c.vals[i]
+		mpn[c.keys[i]] = x
+	}
+	arrp := [3]*int{nil, ps[0], nil}
+	tie := map[interface{}]interface{}{}
+	tiep := map[interface{}]*int{}
+	tieKeys := []interface{}{1, int64(1), 1.0, "1", uint8(1), 2, int64(2), "2", float32(2)}
+	for _, i := range r.Perm(len(tieKeys)) {
+		tie[tieKeys[i]] = fmt.Sprintf("%T", tieKeys[i])
+		x := new(int)
+		*x = 100 + i
+		tiep[tieKeys[i]] = x
+	}
 	return map[string]interface{}{
+		"psn": psn, "stl": stl, "mpn": mpn, "lpn": []interface{}{nil, pi}, "arrp": arrp, "tie": tie, "tiep": tiep,
 		"m": m, "m2": m2, "tm": tm, "tm2": tm2, "ti": ti, "ik": ik, "ik2": ik2, "ik3": ik3, "ik4": ik4, "nested": nested,
 		"p": pi, "ps": ps, "pp": ppi, "st": c03Struct{Name: "sv", P: pi, S: s}, "pst": &c03Struct{Name: "psv"}, "lp": []interface{}{pi}, "mp": mp,
 		"d": time.Date(2024, 3, 5, 14, 7, 9, 0, time.UTC), "ts": 1709647629, "a1": "one", "a2": "two", "a3": "three", "n1": 1, "n2": 2,
